@@ -24,7 +24,7 @@ MANIFEST = dict(
     category='model_checking', design_ref='DESIGN.md §3 C04, §2.5',
     engine='E1-history',
     technique='explicit-state model checking: BFS closure of the add/remove state graph on the real database; per-state scoped-transcript equality with the reference model and per-edge non-interference of unchanged selections',
-    text='The state graph of C05 (18 add/remove events over base, second version with identical ids, extension, extension of extension, dependent, unrelated lexicon sharing forms and ILIs) is closed (BFS to a fixpoint) on the real SQLite database under an abstraction key (quick: installed lexicons in rowid order + ILI-index flag; thorough: additionally the value sets of the shared lookup tables). In every state, for every Wordnet selection of a menu (each single lexicon with expand default and disabled, base+extension families, both versions together, lang=en/es, default mode) the complete public-API transcript (words, forms, tags, pronunciations, senses, navigation, relations, members, ILIs) must equal the transcript the reference model computes for exactly that scope and may mention only entities of the selection (restricted) or of the entity\'s own extension family (default mode). Along every transition of the graph, every selection whose resolved lexicon set and expand set are unchanged must report an identical transcript - this covers additions and removals of unrelated lexicons and of unselected extensions of selected lexicons. The same is done over the twin universe UT of C05 (two versions of one extension and a fork of it that use the same ids for everything they add, including the forms they add to one base entry) with its own menu of 14 selections: what one sibling declares must not appear under, or vanish from, a selection that holds another.',
+    text='The state graph of C05 (18 add/remove events over base, second version with identical ids, extension, extension of extension, dependent, unrelated lexicon sharing forms and ILIs) is closed (BFS to a fixpoint) on the real SQLite database under an abstraction key (quick: installed lexicons in rowid order + ILI-index flag; thorough: additionally the value sets of the shared lookup tables). In every state, for every Wordnet selection of a menu (each single lexicon with expand default and disabled, base+extension families, both versions together, lang=en/es, default mode) the complete public-API transcript (words, forms, tags, pronunciations, senses, navigation, relations, members, ILIs) must equal the transcript the reference model computes for exactly that scope and may mention only entities of the selection (restricted) or of the entity\'s own extension family (default mode). Along every transition of the graph, every selection whose resolved lexicon set and expand set are unchanged must report an identical transcript - this covers additions and removals of unrelated lexicons and of unselected extensions of selected lexicons. The same is done over the twin universe UT of C05 (two versions of one extension and a fork of it that use the same ids for everything they add, including the forms they add to one base entry) with its own menu of 14 selections: what one sibling declares must not appear under, or vanish from, a selection that holds another. After every removal the path is replayed in one process on a database file of its own - state, read-only navigation of everything, the removal, then an add of a lexicon that takes over the freed rowid, through wn.add and (main universe) through wn.add_lexical_resource - and the state reached is checked; the membership rules also see every target of Synset.relations().',
     note='Expanded (ILI-borrowed) relations are compared differentially here and against a model in C12. Quotient soundness as for C05.',
 )
 
